@@ -9,7 +9,17 @@ PROPS = {
     "C02": {"profiles": ["C02"], "count": (400, 6000), "mc": [], "gen": []},
     "C03": {"profiles": ["C03"], "count": (400, 6000), "mc": [], "gen": []},
     "C04": {"profiles": ["C04"], "count": (400, 6000), "mc": [], "gen": []},
+    "C05": {"profiles": ["C05"], "count": (300, 5000), "mc": [], "gen": []},
+    "C06": {"profiles": ["C06"], "count": (300, 5000), "mc": [], "gen": []},
+    "C07": {"profiles": ["C07"], "count": (300, 5000), "mc": [], "gen": []},
+    "C08": {"profiles": ["C08"], "count": (300, 5000), "mc": [], "gen": []},
+    "C09": {"profiles": ["C09"], "count": (300, 5000), "mc": [], "gen": []},
+    "C10": {"profiles": ["C10"], "count": (300, 5000), "mc": [], "gen": []},
+    "C11": {"profiles": ["C11"], "count": (300, 5000), "mc": [], "gen": []},
     "C12": {"profiles": ["C12"], "count": (400, 6000), "mc": [], "gen": []},
+    "C13": {"profiles": ["C13"], "count": (300, 5000), "mc": [], "gen": []},
+    "C14": {"profiles": ["C14"], "count": (300, 5000), "mc": [], "gen": []},
+    "C15": {"profiles": ["C15"], "count": (300, 5000), "mc": [], "gen": []},
 }
 
 META = {}
